@@ -151,7 +151,7 @@ SPEC = {
     'deciding': ['norm-conserved', 'energy-conserved', 'trace.norm-at-every-substep', 'trace.energy-at-every-substep', 'return==norm-of-input',
                  'hamiltonian-untouched', 'singlesite.bond-dims-never-grow', 'trace.evolution-starts-from-normalised-input', 'trace.points-observed'],
     'workloads': [
-        Workload('tdvp', tdvp_case, quick=260, thorough=8000),
+        Workload('tdvp', tdvp_case, quick=520, thorough=48000),
     ],
     'shards': {'quick': 4, 'thorough': 16},
     'assumptions': ['dense Hamiltonian from the independent contraction; tolerance 1e-10 (norm) and 1e-10*||H|| (energy)'],
